@@ -170,13 +170,13 @@ def set_encoding(enc):
 
 
 # W classes used to make a counterexample replayable with the real width table (checked against wcwidth here)
-_W_CLASSES = [(0x300, 0x36F, 0), (0x4E00, 0x9FFF, 2), (0xC0, 0xFF, 1), (0x410, 0x44F, 1), (0xAC00, 0xD7A3, 2)]
+_W_CLASSES = [(0x2026, 0x2026, 1), (0x300, 0x36F, 0), (0x4E00, 0x9FFF, 2), (0xC0, 0xFF, 1), (0x410, 0x44F, 1), (0xAC00, 0xD7A3, 2), (0x2028, 0x2029, 0), (0x200B, 0x200B, 0)]
 
 
 def _check_w_classes():
     import wcwidth
 
-    for lo, hi, w in _W_CLASSES:
+    for lo, hi, w in _W_CLASSES + [(0x2026, 0x2026, 1), (32, 126, 1), (0, 31, 0), (127, 159, 0)]:
         for c in range(lo, hi + 1):
             assert builtins.max(wcwidth.wcwidth(chr(c)), 0) == w, (hex(c), w)
 
